@@ -76,7 +76,10 @@ func (b *Blk) HasSub() bool {
 
 // ---- compilation to BPMN ----
 
-type blkCompiler struct{ n int }
+type blkCompiler struct {
+	n    int
+	subs [][2]string // (sub-process node, its inner start event)
+}
 
 func (c *blkCompiler) fresh(prefix string) string { c.n++; return fmt.Sprintf("%s%d", prefix, c.n) }
 
@@ -168,6 +171,7 @@ func (c *blkCompiler) compile(p *Prog, b *Blk) (in, out string) {
 		n := p.Node("sub", s)
 		n.Sub = &Prog{nflow: 1000 * c.n}
 		st, en := c.fresh("ss"), c.fresh("se")
+		c.subs = append(c.subs, [2]string{s, st})
 		n.Sub.Node("start", st)
 		bi, bo := c.compile(n.Sub, b.Kids[0])
 		n.Sub.Node("end", en)
@@ -182,7 +186,9 @@ func (c *blkCompiler) compile(p *Prog, b *Blk) (in, out string) {
 	panic("kind " + b.Kind)
 }
 
-func BlkProg(b *Blk) *Prog {
+func BlkProg(b *Blk) *Prog { p, _ := BlkProgSubs(b); return p }
+
+func BlkProgSubs(b *Blk) (*Prog, [][2]string) {
 	c := &blkCompiler{}
 	p := &Prog{}
 	p.Node("start", "start")
@@ -194,7 +200,28 @@ func BlkProg(b *Blk) *Prog {
 		p.Flow("start", in, "")
 		p.Flow(out, "end", "")
 	}
-	return p
+	return p, c.subs
+}
+
+// SubEvents projects a trace log onto the activation protocol of each sub-process node:
+// 0 = a parent token enters, 1 = the inner start event flows, 3 = the parent token continues.
+func SubEvents(subs [][2]string, log []Ev) string {
+	var all []string
+	for _, s := range subs {
+		var evs []int
+		for _, e := range log {
+			switch {
+			case e.K == "visit" && e.N == s[0]:
+				evs = append(evs, 0)
+			case e.K == "flow" && e.N == s[1]:
+				evs = append(evs, 1)
+			case e.K == "flow" && e.N == s[0]:
+				evs = append(evs, 3)
+			}
+		}
+		all = append(all, natList(evs))
+	}
+	return "[" + strings.Join(all, ";") + "]"
 }
 
 // ---- Go copy of the block semantics (expectation generator only) ----
@@ -347,7 +374,9 @@ func (g *blkGen) gen(size, depth int, allowLoop bool) *Blk {
 		return b
 	case k < 9 && allowLoop && g.loops == 0:
 		g.loops++
-		return &Blk{Kind: "loop", ID: 3, N: 2 + g.rng.Intn(2), Kids: []*Blk{g.gen(size/2, depth-1, false)}}
+		g.ntask++
+		first := &Blk{Kind: "task", ID: g.ntask} // every iteration requests at least this task: no busy loop
+		return &Blk{Kind: "loop", ID: 3, N: 2 + g.rng.Intn(2), Kids: []*Blk{{Kind: "seq", Kids: []*Blk{first, g.gen(size/2, depth-1, false)}}}}
 	default:
 		g.ntask++
 		return &Blk{Kind: "task", ID: g.ntask}
